@@ -294,7 +294,9 @@ pub mod arbitrary_precision {
     where
         D: serde::de::Deserializer<'de>,
     {
-        let n = BigDecimal::deserialize(deserializer)?;
+        // (not `BigDecimal::deserialize`: with the `string-only` feature that accepts
+        //  strings only, and this adapter must read the numbers it writes)
+        let n = deserializer.deserialize_any(BigDecimalVisitor)?;
         check_scale_limit(n)
     }
 
